@@ -35,6 +35,7 @@
 (* by at least 2 per spend).                                                 *)
 EXTENDS ClvmSer, Integers, TLC
 SeqX == INSTANCE SequencesExt   \* (named: its Cons clashes with SExp!Cons)
+FSX == INSTANCE FiniteSetsExt
 
 \* ------------------------------------------------------------ node tables
 IsANode(nd) == "a" \in DOMAIN nd
@@ -82,6 +83,18 @@ SumLenSeq(s) == SeqX!FoldLeft(LAMBDA acc, b : acc + Len(b), 0, s)
 VBytesOf(it) == SumLenSeq(it.atoms) + AtomVB * Len(it.atoms) + PairVB * Len(it.pairs)
 VBytesT(t, root) == VBytesOf(InternT(t, root))
 
+\* The same size in linear time, for the big tables of recorded traces: a unique pair is identified by its
+\* tree hash (SHA-256 is assumed collision free), a unique atom by its bytes. MC_Interning checks
+\* VBytesH = VBytesT on every small table.
+NodeHashes(t) == SeqX!FoldLeft(LAMBDA acc, nd : Append(acc, IF IsANode(nd) THEN SHA256(<<1>> \o nd.a)
+                                                             ELSE SHA256(<<2>> \o acc[nd.l] \o acc[nd.r])), <<>>, t)
+VBytesHW(t, h, root) ==
+  LET m == Reach(t, root)
+      atoms == {t[i].a : i \in {j \in 1..root : m[j] /\ IsANode(t[j])}}
+      pairs == {h[i] : i \in {j \in 1..root : m[j] /\ IsPNode(t[j])}} IN
+  FSX!FoldSet(LAMBDA b, acc : acc + Len(b), 0, atoms) + AtomVB * Cardinality(atoms) + PairVB * Cardinality(pairs)
+VBytesH(t, root) == VBytesHW(t, NodeHashes(t), root)
+
 \* the interned result is itself a well-formed table without duplicates
 NoDupSeq(s) == \A i, j \in DOMAIN s : s[i] = s[j] => i = j
 InternedOK(it) == /\ NoDupSeq(it.atoms) /\ NoDupSeq(it.pairs)
@@ -113,6 +126,15 @@ ClosedForm(x)    == TreeWeight(x) = SerLen(x) + 2 * PairCount(x) + SlackSum(x)
 BelowTreeWeight(x) == VB(x) <= TreeWeight(x) /\ (VB(x) = TreeWeight(x) <=> NoRepeat(x))
 SerBounds(x)     == /\ VB(x) <= 3 * SerLen(x)
                     /\ (NoRepeat(x) /\ MaxAtomLen(x) < 8192) => VB(x) >= SerLen(x)
+\* the three laws of (b) with the size and the number of distinct subtrees evaluated once (big recorded trees)
+ValueLaws(x, vb) ==
+  LET tw == TreeWeight(x)
+      norep == Occurrences(x) = Cardinality(SubTrees(x))
+      sl == SerLen(x) IN
+  /\ tw = sl + 2 * PairCount(x) + SlackSum(x)
+  /\ vb <= tw /\ (vb = tw <=> norep)
+  /\ vb <= 3 * sl
+  /\ (norep /\ MaxAtomLen(x) < 8192) => vb >= sl
 \* (c) the triangle inequality, with the exact defect, and monotonicity
 Triangle(A, B)   == LET c == VB(Cons(A, B)) IN
                     /\ c <= VB(A) + VB(B) + PairVB
